@@ -134,11 +134,18 @@ func goSliceEnumerate(obj *object, all bool, each func(string) bool) {
 }
 
 func goSliceDefineOwnProperty(obj *object, name string, descriptor property, throw bool) bool {
-	if name == propertyLength {
-		obj.value.(*goSliceObject).setLength(descriptor.value.(Value))
-		return true
-	} else if index := stringToArrayIndex(name); index >= 0 {
-		if obj.value.(*goSliceObject).setValue(index, descriptor.value.(Value)) {
+	if name == propertyLength || stringToArrayIndex(name) >= 0 {
+		// The length and the elements live in the Go slice: they can only be
+		// given a value (a descriptor without one, or an accessor, is refused).
+		value, ok := descriptor.value.(Value)
+		if !ok {
+			return obj.runtime.typeErrorResult(throw)
+		}
+		if name == propertyLength {
+			obj.value.(*goSliceObject).setLength(value)
+			return true
+		}
+		if obj.value.(*goSliceObject).setValue(stringToArrayIndex(name), value) {
 			return true
 		}
 		return obj.runtime.typeErrorResult(throw)
